@@ -222,3 +222,56 @@ Definition indexed_ok (arr_nil : bool) (len index : Z) : bool :=
 Definition wrap64 (z : Z) : Z := ((z + 9223372036854775808) mod 18446744073709551616 - 9223372036854775808)%Z.
 Definition buf_to_int64 (buf : list N) : Z :=
   fold_left (fun i b => wrap64 (Z.lor (wrap64 (i * 256)) (Z.of_N b))) buf 0%Z.
+
+(* ------------------------------------------------------------------ 7. BER length / end-of-contents *)
+
+(* Every slice access of pkcs7/ber.go:readLength and isIndefiniteTermination goes through [getb] /
+   [slice]; an access outside [0, len) (a Go index/slice panic) is the result LOOB / IOOB.
+   Bytes are N below 256 (anything else is outside the model). *)
+Definition getb (ber : list N) (i : Z) : option N :=
+  if (i <? 0)%Z then None else nth_error ber (Z.to_nat i).
+(* ber[lo : lo+cnt] *)
+Definition slice (ber : list N) (lo cnt : Z) : option (list N) :=
+  if (lo <? 0)%Z || (cnt <? 0)%Z || (Z.of_nat (length ber) <? lo + cnt)%Z then None
+  else Some (firstn (Z.to_nat cnt) (skipn (Z.to_nat lo) ber)).
+
+Inductive lres := LOk (len : Z) (indefinite : bool) (next : Z) | LErr | LOOB.
+
+(* pkcs7/ber.go:readLength(ber, offset) *)
+Definition read_length (ber : list N) (offset : Z) : lres :=
+  let n := Z.of_nat (length ber) in
+  if (offset <? 0)%Z || (n <=? offset)%Z then LErr else           (* length offset outside BER data *)
+  match getb ber offset with
+  | None => LOOB
+  | Some first =>
+    let off1 := (offset + 1)%Z in
+    if first =? 128 then LOk 0 true off1
+    else if first <? 128 then LOk (Z.of_N first) false off1
+    else
+      let count := Z.of_N (N.land first 127) in
+      if (4 <? count)%Z then LErr                                    (* more than four octets *)
+      else if (n - off1 <? count)%Z then LErr                        (* length octets exceed available data *)
+      else
+        match getb ber off1 with                                     (* ber[offset] == 0 *)
+        | None => LOOB
+        | Some b0 =>
+          if b0 =? 0 then LErr                                       (* leading zero *)
+          else if (count =? 4)%Z && (127 <? b0) then LErr            (* exceeds supported range *)
+          else
+            match slice ber off1 count with                          (* range ber[offset : offset+count] *)
+            | None => LOOB
+            | Some bs => LOk (fold_left (fun l b => (l * 256 + Z.of_N b)%Z) bs 0%Z) false (off1 + count)%Z
+            end
+        end
+  end.
+
+Inductive ires := IOk (terminated : bool) | IErr | IOOB.
+
+(* pkcs7/ber.go:isIndefiniteTermination(ber, offset) *)
+Definition is_indef_term (ber : list N) (offset : Z) : ires :=
+  let n := Z.of_nat (length ber) in
+  if (offset <? 0)%Z || (n <? offset)%Z || (n - offset <? 2)%Z then IErr else
+  match getb ber offset, getb ber (offset + 1) with
+  | Some a, Some b => IOk ((a =? 0) && (b =? 0))
+  | _, _ => IOOB
+  end.
